@@ -1,5 +1,6 @@
 """C11 — morphometrics do not depend on pose or node numbering."""
 import math
+import os
 import warnings
 
 import numpy as np
@@ -18,7 +19,11 @@ THEOREMS = [
 TRUSTED = ["the feature models of C10 (functions of parent relation + distances only), C12's generated matrices (isometry), C13's generated volume forms (homogeneous of degree 3)"]
 ASSUMPTIONS = ["floating-point rounding is outside the theorems (the property itself says 'beyond floating-point rounding'): metamorphic comparisons use relative tolerance 2e-4",
                "Sholl radii are chosen at least 1e-2 (relative) away from every node radius so that rounding cannot flip a count",
-               "volume: the analytic accuracy level 3 (no Monte Carlo term)",
+               "volume: the analytic accuracy level 3 (no Monte Carlo term) is compared up to rounding; the Monte-Carlo levels 5..9 (the default 'middle', 'high') are "
+               "compared within 1.5 % on neurons with one furcation whose daughters overlap outside the node sphere by less than 25 % of the volume "
+               "(the library's 10^6-sample estimate of each pairwise overlap has a sampling error of up to 2e-3 of the volume there; level 10 - 10^8 samples - is not run), "
+               "under renumbering, translation and scaling only: under ROTATION the unchanged library's Monte-Carlo volume changes by 1-2 % (sdflit's FrustumCone "
+               "bounding box cuts oblique frusta, depending on their direction) - a finding reported in round 7, not compared here",
                "volume under scaling: compared only while every non-zero radius step along an edge is >= 1e-5 length units before and after (the code's "
                "absolute 1e-6 'no taper' band of the sphere/frustum overlap, DESIGN §8, is not scale free: inside it the unchanged library is 0.3-0.5 % off s^3)",
                "far translations and power-of-two scale factors are exact in float32; decimal unit changes (1e-9 .. 1e9) round every coordinate by 6e-8 relative, "
@@ -266,6 +271,145 @@ def _axis_motion(rng):
             "shift": [rng.randint(-80, 80) / 4 for _ in range(3)], "center": rng.choice(["root", "origin"])}
 
 
+# Monte-Carlo accuracy levels of get_volume: every level from 5 ("middle", the DEFAULT) to 9 adds, per furcation, the overlap of every pair of
+# sibling frusta outside the node sphere, estimated from 10^6 uniform samples per pair (about a second each).  The ways a caller reaches them:
+MC_TOL = 1.5e-2
+# Rotations are NOT among the changes compared at the Monte-Carlo levels: the unchanged library fails there.  sdflit's FrustumCone.bounding_box()
+# is too small for most oblique frusta (ends (0,0,0) and (6,8,0), radii 1: it reports x >= -0.16, y >= 0.12 where the frustum reaches x = -0.8,
+# y = -0.6; the quarter turn of it, to (-8,6,0), gets a box that contains it), the sampler draws inside that box and `inside` is false outside it,
+# so the estimated overlap - and get_volume at its DEFAULT accuracy - changes by 1-2 % when the neuron is turned (reported as a finding of this
+# round; VERIF_C11_MC_ROTATIONS=1 adds the family).  Renumbering, translation and scaling about the origin keep every direction, hence the box error.
+MC_ROTATIONS = os.environ.get("VERIF_C11_MC_ROTATIONS", "") not in ("", "0")
+MC_CALLS = ["default", "middle", "high", 5, 6, 7, 8, 9, "ef.default", "ef.middle"]
+
+
+def _mc_volume(t, how):
+    from swcgeom.analysis import get_volume
+    from swcgeom.analysis.feature_extractor import extract_feature
+
+    if how == "default":
+        return float(get_volume(t))
+    if how == "ef.default":
+        return float(np.asarray(extract_feature(t).get("volume")).ravel()[0])
+    if how == "ef.middle":
+        return float(np.asarray(extract_feature(t).get("volume", accuracy="middle")).ravel()[0])
+    return float(get_volume(t, accuracy=how))
+
+
+def _unit(v):
+    nrm = math.sqrt(sum(c * c for c in v)) or 1.0
+    return [c / nrm for c in v]
+
+
+def _pair_overlaps(t, v, npts, nrng):
+    """The generator's own estimate (numpy, its own generator - no global state) of what the daughters of node v share pairwise OUTSIDE the
+    sphere of v, and of the volume of all spheres and frusta together.  Used only to condition the generated family (overlaps present,
+    pairwise different, not dominating the neuron); the oracle never sees it."""
+    X = np.array(t["xyz"], dtype=np.float64); R = np.array(t["r"], dtype=np.float64)
+    ch = [i for i in range(t["n"]) if t["pids"][i] == v]
+    lo = np.min([np.minimum(X[v] - R[v], X[c] - R[c]) for c in ch], axis=0); hi = np.max([np.maximum(X[v] + R[v], X[c] + R[c]) for c in ch], axis=0)
+    P = nrng.uniform(lo, hi, size=(npts, 3)); box = float(np.prod(hi - lo))
+
+    def inside(c):
+        d = X[c] - X[v]; L = float(np.linalg.norm(d)); d = d / L
+        s = (P - X[v]) @ d
+        rad = np.linalg.norm(P - X[v] - np.outer(s, d), axis=1)
+        return (s >= 0) & (s <= L) & (rad <= R[v] + (R[c] - R[v]) * s / L)
+
+    ins = [inside(c) for c in ch]
+    out = np.linalg.norm(P - X[v], axis=1) > R[v]
+    ov = [float(np.count_nonzero(ins[i] & ins[j] & out)) / npts * box for i in range(len(ch)) for j in range(i + 1, len(ch))]
+    total = sum(4 / 3 * math.pi * r ** 3 for r in t["r"])
+    for i, p in enumerate(t["pids"]):
+        if p >= 0:
+            L = float(np.linalg.norm(X[i] - X[p])); total += math.pi * L * (R[i] ** 2 + R[i] * R[p] + R[p] ** 2) / 3
+    return ov, total
+
+
+def bundle(rng, k, at_root):
+    """A neuron with ONE k-furcation (k >= 2) whose daughters leave in a narrow bundle, so that the daughter frusta overlap OUTSIDE the node's
+    sphere (several stems leaving the soma side by side when `at_root`; a tuft / trifurcation on a dendrite otherwise).  Directions, lengths
+    and radii of the daughters are drawn independently; a draw is kept iff (by the generator's own estimate) every pair of daughters
+    overlaps, all overlaps together stay below 25 % (two daughters: 10 %) of the neuron's volume (the library's sampling noise grows with them) and - for three
+    or more daughters - the pairwise overlaps DIFFER from each other by at least 2.5 % of the volume (k = 3: every two of them; k > 3: the
+    largest and the smallest).  Everything else is unbranched; positions on the 1/64 grid.  Returns (tree case, share of the overlaps)."""
+    nrng = np.random.default_rng(rng.randrange(2 ** 32))
+    g = lambda p: [round(c * 64) / 64.0 for c in p]
+
+    def spread(ov):
+        gaps = [abs(x - y) for i, x in enumerate(ov) for y in ov[i + 1:]]
+        return min(gaps) if k == 3 else max(gaps)
+
+    best = None
+    for _try in range(1500):
+        rp = rng.choice([0.5, 0.75, 1.0, 1.5, 2.0])
+        a = _unit([rng.gauss(0, 1) for _ in range(3)]); h = _unit([rng.gauss(0, 1) for _ in range(3)])
+        e1 = _unit([a[1] * h[2] - a[2] * h[1], a[2] * h[0] - a[0] * h[2], a[0] * h[1] - a[1] * h[0]])
+        e2 = [a[1] * e1[2] - a[2] * e1[1], a[2] * e1[0] - a[0] * e1[2], a[0] * e1[1] - a[1] * e1[0]]
+        o = [rng.randint(-40, 40) / 4 for _ in range(3)]
+        t = {"class": f"bundle{k}", "n": 0, "pids": [], "types": [], "xyz": [], "r": []}
+
+        def add(p, q, r, ty=3):
+            t["pids"].append(p); t["xyz"].append(g(q)); t["r"].append(float(r)); t["types"].append(ty); t["n"] += 1
+            return t["n"] - 1
+
+        if at_root:
+            v = add(-1, o, rp, 1)
+        else:
+            v = add(-1, [o[i] - a[i] * rp * rng.uniform(4, 8) for i in range(3)], rp * rng.choice([1.0, 1.5, 2.0]), 1)
+            if rng.random() < 0.5:
+                v = add(v, [o[i] - a[i] * rp * rng.uniform(1.5, 3) + e1[i] * rng.uniform(-1, 1) for i in range(3)], rp)
+            v = add(v, o, rp)
+        for j in range(k):
+            phi, tt = rng.uniform(0, 2 * math.pi), rng.uniform(0.05, 0.45)
+            d = _unit([a[i] + tt * (math.cos(phi) * e1[i] + math.sin(phi) * e2[i]) for i in range(3)])
+            L = rp * rng.uniform(5, 12); r = rp * rng.choice([1.0, 0.75, 0.5])
+            c = add(v, [o[i] + L * d[i] for i in range(3)], r)
+            if rng.random() < 0.6:
+                add(c, [o[i] + (L + rp * rng.uniform(3, 6)) * d[i] + e2[i] * rng.uniform(-1, 1) for i in range(3)], r * rng.choice([1.0, 0.5]))
+        if len({tuple(q) for q in t["xyz"]}) != t["n"]:
+            continue
+        for npts in (4000, 40000, 400000):            # two cheap screenings, then the decision on a fine estimate (no selection of noise)
+            ov, total = _pair_overlaps(t, v, npts, nrng)
+            share = sum(ov) / total
+            good = min(ov) > 0.005 * total and share < (0.1 if k == 2 else 0.25) and (k < 3 or spread(ov) > 0.025 * total)
+            if not good:
+                break
+        if good:
+            return t, float(share)
+        if npts == 400000 and share < (0.1 if k == 2 else 0.25) and (best is None or spread(ov) / total > best[2]):
+            best = (t, float(share), spread(ov) / total)
+        elif best is None:
+            best = (t, float(share), -1.0)
+    return best[0], best[1]
+
+
+def relabel_siblings(rng, t):
+    """A random renumbering (root stays 0) in which NO daughter of a furcation keeps its rank among its siblings: the ids the daughters get
+    are dealt out again among them by a random derangement of their order (two daughters: swapped).  Coordinates, radii, parents unchanged."""
+    n = t["n"]
+    perm = list(range(1, n)); rng.shuffle(perm); perm = [0] + perm     # old -> new
+    for v in range(n):
+        ch = [i for i in range(n) if t["pids"][i] == v]                # by old id
+        if len(ch) < 2:
+            continue
+        new_sorted = sorted(perm[c] for c in ch)
+        for _try in range(200):
+            ranks = list(range(len(ch))); rng.shuffle(ranks)
+            if all(ranks[j] != j for j in range(len(ch))):
+                break
+        else:
+            ranks = list(range(1, len(ch))) + [0]
+        for j, c in enumerate(ch):                                     # the daughter of old rank j gets the id of new rank ranks[j]
+            perm[c] = new_sorted[ranks[j]]
+    new = {"n": n, "pids": [0] * n, "types": [0] * n, "xyz": [None] * n, "r": [0.0] * n}
+    for old in range(n):
+        k = perm[old]
+        new["pids"][k] = -1 if t["pids"][old] == -1 else perm[t["pids"][old]]
+        new["types"][k] = t["types"][old]; new["xyz"][k] = list(t["xyz"][old]); new["r"][k] = t["r"][old]
+    return new
+
+
 class Metamorphic(Suite):
     name = "c11.metamorphic"
     case_timeout = 180
@@ -392,6 +536,31 @@ class Metamorphic(Suite):
             else:
                 c.update(shift=[rng.choice([-1, 1]) * rng.choice(FAR_SHIFTS) for _ in range(3)])
             out.append(c)
+        # get_volume as it is called by default: the Monte-Carlo accuracy levels (5 .. 9, "middle", "high", no argument, through
+        # extract_feature), on neurons where their extra term is not zero - a furcation whose daughters leave side by side and overlap
+        # outside the node sphere (`bundle`).  Trifurcations (and 4-furcations in the wide search) under renumberings that change the order
+        # of the daughters (`relabel_siblings`); bifurcations and trifurcations under translation and scaling (and rotation, see MC_ROTATIONS).
+        # Each pair of daughters costs the library a second per evaluation, hence the small guaranteed share in the quick tier; "big" keeps
+        # these cases out of the second pass.
+        plan = [(3, "relabel"), (2, "far"), (2, "scale")]
+        if big:
+            plan += [(3, "relabel"), (3, "far"), (3, "scale"), (4, "relabel"), (2, "relabel"), (3, "relabel")]
+        if MC_ROTATIONS:
+            plan += [(2, "rigid"), (2, "rigid")] + ([(3, "rigid")] if big else [])
+        calls = list(MC_CALLS); rng.shuffle(calls)
+        for j, (kk, kind) in enumerate(plan):
+            t, share = bundle(rng, kk, at_root=rng.random() < 0.5)
+            c = {"class": f"mc-volume/{kind}/bundle{kk}", "tree": t, "kind": kind, "mc": calls[j % len(calls)], "overlap_share": round(float(share), 4),
+                 "np_seed": rng.randrange(2 ** 31), "big": True}
+            if kind == "rigid":
+                c.update(_motion(rng) if rng.random() < 0.5 else _axis_motion(rng))
+            elif kind == "relabel":
+                c.update(perm_seed=rng.randrange(10**6), siblings=True)
+            elif kind == "far":
+                c.update(shift=[rng.choice([-1, 1]) * rng.choice([64.0, 128.0, 256.0, 512.0, 1024.0]) for _ in range(3)])
+            else:
+                c.update(s=rng.choice([0.5, 2.0, 3.0, 0.25, 1.5, 1e3, 1e-3, 2.0 ** 10]))
+            out.append(c)
         return out
 
     def _radii(self, t):
@@ -410,7 +579,21 @@ class Metamorphic(Suite):
         t0 = gen.make_tree(case["tree"])
         rs = self._radii(case["tree"])
         proto, order = case.get("protocol"), case.get("order_seed")
-        f0 = features(t0, rs, proto, order)
+        feats = features
+        if case.get("mc") is not None:
+            # the sampling of the library draws from numpy's global generator: seeded per case (replayable), restored afterwards
+            def feats(t, rs_, proto_, order_, _k=[0]):
+                f = features(t, rs_, proto_, order_)
+                st = np.random.get_state()
+                try:
+                    np.random.seed((int(case.get("np_seed", 0)) + _k[0]) % 2 ** 31); _k[0] += 1
+                    with warnings.catch_warnings():
+                        warnings.simplefilter("ignore")
+                        f["volume_mc"] = _mc_volume(t, case["mc"])
+                finally:
+                    np.random.set_state(st)
+                return f
+        f0 = feats(t0, rs, proto, order)
         kind = case["kind"]
         if case.get("source") == "fresh":      # the changed copy is made from a newly built object, not from the one just measured
             t0 = gen.make_tree(case["tree"])
@@ -418,22 +601,22 @@ class Metamorphic(Suite):
             warnings.simplefilter("ignore")
             if kind == "rigid":
                 t1 = Translate(*case["shift"])(Rotate(np.array(case["axis"]), case["theta"], center=case["center"])(t0))
-                f1 = features(t1, rs, proto, order)
+                f1 = feats(t1, rs, proto, order)
             elif kind == "far":
                 t1 = Translate(*case["shift"])(t0)
                 X = np.array(case["tree"]["xyz"], dtype=np.float64)          # exactness is judged on the case data alone
                 want = (X + np.array(case["shift"])).astype(np.float32)
                 if not np.array_equal(want.astype(np.float64) - np.array(case["shift"]), X) or not np.array_equal(X.astype(np.float32).astype(np.float64), X):
                     return {"skip": "translation not exact in float32"}
-                f1 = features(t1, rs, proto, order)
+                f1 = feats(t1, rs, proto, order)
             elif kind == "scale":
                 s = case["s"]
                 t1 = Scale(s, s, s, center="origin")(t0)
                 t1.ndata["r"] = t1.ndata["r"] * np.float32(s)
-                f1 = features(t1, [r * s for r in rs], proto, order)
+                f1 = feats(t1, [r * s for r in rs], proto, order)
             else:
-                t1 = gen.make_tree(relabel(_r.Random(case["perm_seed"]), case["tree"]))
-                f1 = features(t1, rs, proto, order)
+                t1 = gen.make_tree((relabel_siblings if case.get("siblings") else relabel)(_r.Random(case["perm_seed"]), case["tree"]))
+                f1 = feats(t1, rs, proto, order)
         out = {"before": f0, "after": f1}
         if kind == "rigid":
             out["moved"] = t1.xyz().astype(float).tolist()
@@ -506,6 +689,18 @@ class Metamorphic(Suite):
             if not close(x, y, s ** power):
                 exp = "unchanged" if power == 0 or kind != "scale" else f"×{s}^{power}"
                 out.append((f"{kind}-changes-{key}", f"{what} turned {key} {str(x)[:120]} into {str(y)[:120]} (expected {exp}); pids={case['tree']['pids']}{proto}"))
+        if case.get("mc") is not None and not volume_band:
+            # get_volume at a Monte-Carlo accuracy level: the value carries the library's sampling noise (a few 1e-4 .. 2e-3 of the volume on
+            # the generated bundles, see ASSUMPTIONS), so the comparison allows 1.5 % instead of rounding - weaker than the property, never stronger
+            x, y = a.get("volume_mc"), b.get("volume_mc")
+            try:
+                ok = math.isfinite(x) and math.isfinite(y) and abs(y - x * s ** 3) <= MC_TOL * abs(x * s ** 3)
+            except TypeError:
+                ok = False
+            if not ok:
+                exp = "unchanged" if kind != "scale" else f"×{s}^3"
+                out.append((f"{kind}-changes-volume-mc", f"{what} turned get_volume (accuracy {case['mc']}) {x} into {y} (expected {exp} within {MC_TOL:.1%}: "
+                            f"far above the sampling noise); pids={case['tree']['pids']}"))
         for key in ("counts", "branch_order", "lm_branch_order", "terminal_degree", "sholl"):
             if key in a and a[key] != b.get(key):
                 out.append((f"{kind}-changes-{key}", f"{key} changed from {a[key]} to {b.get(key)} under {kind}; pids={case['tree']['pids']}{proto}"))
@@ -526,6 +721,8 @@ class Metamorphic(Suite):
         return out[:3]
 
     def nontrivial(self, case, res):
+        if case.get("mc") is not None:
+            return case.get("overlap_share", 0) > 0.02 and "exc" not in res
         return case["tree"]["n"] >= 5 and "skip" not in res
 
 
